@@ -1265,3 +1265,107 @@ def phasefield_obligations(prop, tier):
                               clause="cP == [tr eps > 0] K IxI + 2 mu (I - IxI / dim), cM == [tr eps < 0] K IxI (so cP + cM == C), for all Ne, nPg, homogeneous or per-element moduli", timeout=300))
     obs.append(Ob(f"{prop}.gp.canary.pointwise", ob_pf_pointwise, (2, True), "P", expect=REFUTED, clause="twice the stress must be refuted", timeout=120))
     return obs
+
+
+# ---------------------------------------------------------------------------------------------- hyperelastic residual / tangent operator (C18)
+
+NLP = "EasyFEA/FEM/Operators/NonLinear.py"
+MUP = "EasyFEA/Models/_utils.py"
+
+
+@_guard
+def ob_pk2_operator(dim, nPe, canary=False):
+    """NonLinear.SecondPiolaKirchhoffStressTensor with its private helpers (__block_grad_B, __geometric_tangent, __second_piola_block, __reorder_dofs) and
+    Project_vector_to_matrix, all from the AST: for an arbitrary kinematic operator De, stress vector S and tangent D at the generic (e, p)
+        R[(n,k)]        == t sum_p wJ sum_s S_s Bt[s,(n,k)],          Bt[s,(n,k)] = sum_j De[s,(k,j)] dN[j,n]
+        K[(n,k),(m,l)]  == t sum_p wJ ( Bt^T D Bt + delta_kl dN_n . Smat . dN_m )
+    in the interleaved dof order (x1, y1, z1, ..., xn, yn, zn)"""
+    ns = {2: 3, 3: 6}[dim]
+    sp = gen.Space(dict(wJ=(NE, NPG), dN=(NE, NPG, dim, nPe), De=(NE, NPG, ns, dim * dim), S=(NE, NPG, ns), D=(NE, NPG, ns, ns)), scalars=("t",))
+    g, NPs, Fe = env(sp, "EasyFEA.FEM.Operators.NonLinear")
+    g["np"] = type("NPn", (type(NPs),), dict(arange=staticmethod(np.arange)))(sp)
+    gu, _, _ = env(sp, "EasyFEA.Models._utils")
+    gu["FeArray"], gu["np"] = g["FeArray"], g["np"]
+    exact_sqrt2 = sp.ctx.sqrt_rational(F(2))
+    pvm = extract.compile_fn(extract.get(MUP, "Project_vector_to_matrix"), gu)
+    g["Project_vector_to_matrix"] = lambda v, coef=None: pvm(v, exact_sqrt2 if coef is None else coef)     # the default argument np.sqrt(2) read exactly
+    fns = module_fns(NLP, g, ["einsum", "__block_grad_B", "__geometric_tangent", "__reorder", "__reorder_dofs", "__second_piola_block", "SecondPiolaKirchhoffStressTensor"])
+    grp = sx.Mock("groupElem", Ne=NE, dim=dim, nPe=nPe, Get_dN_e_pg=lambda mt: sp.fe("dN"), Get_weightedJacobian_e_pg=lambda mt: sp.fe("wJ"))
+    state = sx.Mock("state", groupElem=grp, matrixType="rigi", Compute_De=lambda: sp.fe("De"))
+    mat = sx.Mock("material", thickness=sp.sym("t"), Compute_dWde=lambda st: sp.fe("S"), Compute_d2Wde=lambda st: sp.fe("D"))
+    K, R = fns["SecondPiolaKirchhoffStressTensor"](mat, state)
+    wJ, dN, De, S, D = (sp.arr(k) for k in ("wJ", "dN", "De", "S", "D"))
+    t = sp.sym("t") if dim == 2 else 1
+    nd = nPe * dim
+    # Bt[s, n*dim + k] = sum_j De[s, k*dim + j] dN[j, n]
+    De4 = De.reshape(NE, NPG, ns, dim, dim)
+    Bt = gen.einsum("epskj,epjn->epsnk", De4, dN).reshape(NE, NPG, ns, nd)
+    wantR = gen.einsum("ep,eps,epsa->ea", wJ, S, Bt) * t
+    Smat = sp.full((NE, NPG, dim, dim), 0)
+    pairs = {2: [(0, 1, 2)], 3: [(1, 2, 3), (0, 2, 4), (0, 1, 5)]}[dim]
+    for d in range(dim):
+        Smat[:, :, d, d] = S[:, :, d]
+    for i, j, k in pairs:
+        Smat[:, :, i, j] = S[:, :, k] / exact_sqrt2
+        Smat[:, :, j, i] = S[:, :, k] / exact_sqrt2
+    geo = gen.einsum("ep,epan,epac,epcm->enm", wJ, dN, Smat, dN)               # (Ne, nPe, nPe)
+    Kgeo = gen.einsum("enm,kl->enkml", geo, sp.lift(np.eye(dim, dtype=int))).reshape(NE, nd, nd)
+    wantK = (gen.einsum("ep,epsa,epsr,eprb->eab", wJ, Bt, D, Bt) + Kgeo) * t
+    if canary:
+        wantK = wantK + Kgeo
+    check(R, wantR, f"residual of the PK2 operator (dim {dim}, nPe {nPe})", f"pk2:R:{dim}:{nPe}")
+    check(K, wantK, f"tangent of the PK2 operator (dim {dim}, nPe {nPe}): material + geometric part, interleaved dofs", f"pk2:K:{dim}:{nPe}")
+    return Verdict(DISCHARGED, backend=BACKEND, sub=nd * nd + nd)
+
+
+def hyper_obligations(prop, tier):
+    obs = []
+    for dim, nPe in ((2, 3), (2, 4), (3, 4)) + (((2, 6), (3, 8), (3, 6)) if tier == "thorough" else ()):
+        obs.append(Ob(f"{prop}.gp.pk2.{dim}d.n{nPe}", ob_pk2_operator, (dim, nPe), "P",
+                      tuple(f_(NLP, q) for q in ("SecondPiolaKirchhoffStressTensor", "__second_piola_block", "__geometric_tangent", "__block_grad_B", "__reorder_dofs")) + (f_(MUP, "Project_vector_to_matrix"),),
+                      clause="R == t sum_p wJ B^T S and K == t sum_p wJ (B^T D B + I (x) dN^T Smat dN) with B = De grad, for arbitrary De, S, D at the generic (e, p), interleaved dof order; all Ne, nPg",
+                      timeout=900))
+    obs.append(Ob(f"{prop}.gp.canary.pk2", ob_pk2_operator, (2, 3, True), "P", expect=REFUTED, clause="twice the geometric stiffness must be refuted", timeout=300))
+    return obs
+
+
+def ob_pk2_consistency_lemma(dim, nPe):
+    """L: with the contracts above and C18.kin (B = De grad is the directional derivative of the Green-Lagrange strain: B[s,(n,k)] = KM(sym(F^T grad(N_n e_k)))_s, F = I + sum_m u_m (x) dN_m),
+    the geometric part of K is exactly the derivative of B^T S at fixed S:  sum_s S_s dB[s,(n,k)]/du_(m,l) == delta_kl dN_n . Smat . dN_m ; the material part is B^T D B when
+    D = dS/dE (C18.law.*.d2W) and dE/du = B.  Hence K == dR/du at every state, for every element and every integration point."""
+    ns = {2: 3, 3: 6}[dim]
+    sp = gen.Space(dict(dN=(dim, nPe), u=(nPe, dim), S=(ns,)))
+    dN, u, S = sp.arr("dN").data, sp.arr("u").data, sp.arr("S").data
+    r2 = sp.ctx.sqrt_rational(F(2))
+    one, zero = sp.const(1), sp.const(0)
+    Fm = [[(one if i == j else zero) + sum((u[m, i] * dN[j, m] for m in range(nPe)), zero) for j in range(dim)] for i in range(dim)]
+    pairs = {2: [(0, 1)], 3: [(1, 2), (0, 2), (0, 1)]}[dim]
+
+    def km(M):
+        return [M[d][d] for d in range(dim)] + [r2 * (M[i][j] + M[j][i]) / 2 for i, j in pairs]
+    Smat = [[zero] * dim for _ in range(dim)]
+    for d in range(dim):
+        Smat[d][d] = S[d]
+    for q, (i, j) in enumerate(pairs):
+        Smat[i][j] = Smat[j][i] = S[dim + q] / r2
+    n = 0
+    for nn in range(nPe):
+        for k in range(dim):
+            G = [[(dN[j, nn] if i == k else zero) for j in range(dim)] for i in range(dim)]              # grad of v = N_n e_k
+            FtG = [[sum((Fm[a][i] * G[a][j] for a in range(dim)), zero) for j in range(dim)] for i in range(dim)]
+            Bcol = km([[(FtG[i][j] + FtG[j][i]) / 2 for j in range(dim)] for i in range(dim)])
+            BS = sum((S[s] * Bcol[s] for s in range(ns)), zero)
+            for m in range(nPe):
+                for l in range(dim):
+                    d = BS.diff(f"u_{m}_{l}")
+                    want = sum((dN[a, nn] * Smat[a][c] * dN[c, m] for a in range(dim) for c in range(dim)), zero) if k == l else zero
+                    n += 1
+                    if not (d == want):
+                        raise Refuted(f"d(B^T S)[(n={nn},k={k})]/du[(m={m},l={l})] = {d!r}, geometric stiffness says {want!r}", signature=f"pk2:lemma:{dim}")
+    return Verdict(DISCHARGED, backend="polynomial identity in QQ(dN, u, S)[sqrt 2], derivative by the ring", sub=n)
+
+
+def hyper_lemma_obligations(prop, tier):
+    return [Ob(f"{prop}.gp.pk2.consistency.{dim}d.n{nPe}", ob_pk2_consistency_lemma, (dim, nPe), "L", (),
+               clause="geometric stiffness == derivative of B^T S at fixed S for the Green-Lagrange strain: with D = dS/dE the tangent of the PK2 operator is the derivative of its residual at every state", timeout=600)
+            for dim, nPe in ((2, 3), (3, 4))]
